@@ -239,6 +239,30 @@ def check_case(ctx: Ctx, case) -> None:
             if others:
                 ctx.fail("unknown-reported", f"unexpected log records {others[:3]}",
                          dict(rc, with_unknown=utext))
+    # (g) every parser receives ALL the body lines of its section: a line that says nothing to a section's parser
+    # (junk, a blank line, a line of another section's kind) in front of or between the real lines of
+    # [SyncTrack], [Events] and the instrument sections takes nothing away from what follows it
+    hj = core.h64(text) >> 5
+    if hj % 3 == 0:
+        junk_by = {"SyncTrack": ["garbage", "", '0 = E "x"', "0 = N 0 0"], "Events": ["garbage", "  ", "0 = B 120000", "0 = N 1 0"],
+                   "*": ["garbage", "", "0 = B 120000", '0 = E "section x"', "0 = TS 4"]}
+        jsecs = []
+        for si, (n, b) in enumerate(secs):
+            if n == "Song" or not b:
+                jsecs.append((n, b))
+                continue
+            pool = junk_by.get(n, junk_by["*"])
+            pos = (hj >> (si % 20)) % len(b)              # never behind the last real line only
+            jsecs.append((n, list(b[:pos]) + [pool[(hj >> (3 + si % 17)) % len(pool)]] + list(b[pos:])))
+        jtext = S.render_sections(jsecs)
+        try:
+            other = L.parse(jtext)
+        except Exception as e:  # noqa: BLE001
+            ctx.fail("junk-line-changes-section", f"chart with one junk line per section rejected: {type(e).__name__}: {e}",
+                     dict(rc, with_junk=jtext))
+        else:
+            _same(ctx, "junk-line-changes-section", base, base_obs, other, dict(rc, with_junk=jtext))
+        ctx.classes["junk_line_per_section"] += 1
     # (f) required sections
     lookalikes = ["{} (backup)", "My{}", "{}2", "Old{}", "{}_old", "{}s", "x{}x", "{} ", " {}"]
     for ri, req in enumerate(S.REQUIRED):
